@@ -53,11 +53,23 @@ def impl_eval(case):
                 bc.pop(k, None)
             for k in case['cfgedit'].get('add', []):
                 bc[k] = {'field_name': 'added', 'field_type': 'FIXED', 'field_length': 2}
+        if 'maxedit' in case:
+            # the CONFIGURED maximum record length: another value, or the key absent (the documented default, 6000)
+            saved_max = config.config.get('MAX_VBS_RECORD_LENGTH', 'absent')
+            if case['maxedit'] == 'absent':
+                config.config.pop('MAX_VBS_RECORD_LENGTH', None)
+            else:
+                config.config['MAX_VBS_RECORD_LENGTH'] = case['maxedit']
         try:
             info = mciipm.ipm_info(io.BytesIO(data))
         except Exception as ex:  # noqa
             return {'obs': 'escape:' + type(ex).__name__, 'violation': f'ipm_info raised {type(ex).__name__}'}
     finally:
+        if 'maxedit' in case:
+            if saved_max == 'absent':
+                config.config.pop('MAX_VBS_RECORD_LENGTH', None)
+            else:
+                config.config['MAX_VBS_RECORD_LENGTH'] = saved_max
         if saved is not None:
             bc = config.config['bit_config']
             for k, v in saved.items():
@@ -98,7 +110,7 @@ def impl_eval(case):
 
 
 def model_line(case):
-    if 'cfgedit' in case:
+    if 'cfgedit' in case or 'maxedit' in case:
         return None          # the model's configured bits are the packaged ones; these cases are judged by the oracle
     return 'info\thex:' + file_of(case).hex()
 
@@ -188,6 +200,13 @@ def explore(run, tier):
             rec = b'1240' + bm([bit]) + b' ' * 30
             cases.append({'hex': (struct.pack('>I', len(rec)) + rec).hex(), 'cfgedit': {'add': [str(bit)]},
                           'expect': 'valid', 'cls': f'DE{bit} added to the configuration after a first inspection'})
+    # the configured maximum record length, lowered / raised / absent: the first length is judged against THAT value
+    rec = b'1240' + bm([3]) + b' ' * 30
+    for mx in (50, 100, 3000, 5999, 6000, 6001, 10000, 70000, 'absent'):
+        lim = 6000 if mx == 'absent' else mx
+        for first, expect in ((lim, 'valid'), (lim + 1, 'invalid'), (lim - 1, 'valid'), (lim + 1000, 'invalid')):
+            cases.append({'hex': (struct.pack('>I', first) + rec).hex(), 'maxedit': mx, 'expect': expect,
+                          'cls': f'first length {first} with a configured maximum of {mx}'})
     head = b'\x00\x00\x00\xff' + b'1234' + b'\x70' + b'\x00' * 15
     for body in [b' ' * 989, b' ' * 988 + b'@@', b' ' * 992, b' ' * 988 + b'@@' + b' ' * 1012 + b'@@',
                  b' ' * 990 + b'@@' + b' ' * 1014, b' ' * 988 + b'@@' + b' ' * 1013,
